@@ -1,5 +1,6 @@
 import Driver.C17Mon
 import OidcModel.Generated.RPHandlers
+import OidcModel.Generated.RPCookieNew
 open Kv Drv
 
 /-
@@ -9,15 +10,29 @@ namespace Drv.C17
 
 def sortKV (xs : List (String × String)) : List (String × String) := xs.mergeSort fun a b => decide (a.1 ≤ b.1)
 
+/-- one functional option of the cookie handler as written on the line (`chopts`): unsecure | maxage:<n> | samesite:<n> | path:<p> | domain:<d> -/
+def chOpt (s : String) : CookieHandlerOpt :=
+  match s.splitOn ":" with
+  | ["unsecure"] => Gen.WithUnsecure 0
+  | ["maxage", n] => Gen.WithMaxAge 0 (n.toInt?.getD 0)
+  | ["samesite", n] => Gen.WithSameSite 0 (n.toInt?.getD 0)
+  | "path" :: p => Gen.WithPath 0 (":".intercalate p)
+  | "domain" :: d => Gen.WithDomain 0 (":".intercalate d)
+  | _ => id
+
+/-- the cookie handler as the REGENERATED `NewCookieHandler` builds it from the configured keys and options; the encode oracle
+    (can securecookie encode this state / a verifier) is put in afterwards -/
+def mkHandler (l : Line) (es ep : Bool) : CookieHandler :=
+  let ch := Gen.NewCookieHandler 0 (hexBytes (str l "hk")) (hexBytes (str l "bk")) ((list l "chopts").map chOpt)
+  { ch with securecookie := { ch.securecookie with encodable := fun n _ => if n == "state" then es else ep } }
+
 def mkRP (l : Line) : RP :=
   let es := if has l "es" then bool l "es" else true
   let ep := if has l "ep" then bool l "ep" else true
   let provfail := bool l "provfail"
   { oauthConfig := { ClientID := str l "cid", ClientSecret := "secret", RedirectURL := str l "ruri", Scopes := list l "sc",
                      Endpoint := { AuthURL := "http://op.local/authorize", TokenURL := "" } },
-    cookieHandler := some { securecookie := { hashKey := nat l "hk", blockKey := nat l "bk",
-                                              encodable := fun n _ => if n == "state" then es else ep },
-                            secureOnly := false, maxAge := int l "maxage" },
+    cookieHandler := some (mkHandler l es ep),
     pkce := bool l "pkce",
     signer := match nat l "sg" with | 0 => none | 1 => some { ok := true } | _ => some { ok := false },
     provider := fun _ => if provfail then .error "refused" else .ok { id := 0 } }
